@@ -648,6 +648,18 @@ def str_method(ex, st: State, recv: V, name: str, args, kwargs, node):
     raise Unsupported(f'{kind}.{name}')
 
 
+def _dd_factory(ctx, o):
+    """Missing-key factory of a defaultdict allocated during this execution (None for plain dicts)."""
+    e = z3.simplify(o.e)
+    if not z3.is_int_value(e):
+        return None
+    kind = ctx._defaultdicts.get(e.as_long())
+    if kind is None:
+        return None
+    return {'list': lambda ex, st: st.new_list(), 'dict': lambda ex, st: st.new_dict(),
+            'set': lambda ex, st: st.new_set()}[kind]
+
+
 def call_external(ex, st: State, name: str, args, kwargs, node):
     """A few side-effect-free stdlib functions; everything else is havoc."""
     m = M()
@@ -664,7 +676,17 @@ def call_external(ex, st: State, name: str, args, kwargs, node):
     if name in ('copy.copy', 'copy.deepcopy', 'copy_copy', 'deepcopy'):
         return None
     if name in ('collections.defaultdict', 'defaultdict', 'collections.OrderedDict', 'OrderedDict'):
-        return [(st, st.new_dict())]
+        d = st.new_dict()
+        if 'defaultdict' in name and args:
+            fv = args[0]
+            fname = getattr(getattr(fv, 'py', None), 'name', None) if fv.kind == 'func' else None
+            if fname not in ('list', 'dict', 'set'):
+                raise Unsupported(f'defaultdict factory {fv!r}')
+            if not hasattr(ex.ctx, '_defaultdicts'):
+                ex.ctx._defaultdicts = {}
+                ex.ctx.defaultdict_factory = lambda o, _c=ex.ctx: _dd_factory(_c, o)
+            ex.ctx._defaultdicts[z3.simplify(d.e).as_long()] = fname
+        return [(st, d)]
     if name in ('collections.deque', 'deque'):
         r = st.alloc('deque')
         st.set_list_seq(r, z3.Empty(SeqVal))
